@@ -1045,6 +1045,12 @@ class SelectorWorld:
                               f"{m['params'].get('random_state', 0)!r} draws {exp} for {n_from} samples (fit #{m['fits']} of this object)")
                         elif exp is not None:
                             self.count("random_initial_point_is_the_generators_draw")
+                if j in ref.selected:
+                    # plain FPS never selects a sample twice (its already selected items are
+                    # excluded from the arg-max) - also when every remaining distance is zero
+                    V("reselected_sample", f"step {len(ref.selected)}: sample {j} is selected a second time (prefix {ref.selected}); plain FPS cannot produce this selection",
+                      all_remaining_zero=bool(ref.exhausted()))
+                    return
                 ok, short = ref.check_choice(j)
                 if ref.is_tie() and not first:
                     self.count("tie_steps")
